@@ -87,7 +87,7 @@ ENGINES["sys"] = dict(
 )
 
 ENGINES["chain"] = dict(drv="chain", starts=("ccfg",), trivial=r"=> drop$", branches=["chain.cfg4.ok", "chain.cfg6.ok", "chain.drop", "chain.send"])
-ENGINES["allocc"] = dict(drv="alloc", starts=("new6", "new4"), trivial=r"$^", branches=["batch"], noshrink=True)
+ENGINES["allocc"] = dict(drv="alloc", starts=("new6", "new4"), trivial=r"$^", branches=["batch", "arace"], noshrink=True)
 ENGINES["rangec"] = dict(drv="range", starts=("rsetup",), trivial=r"$^", branches=["batch"], noshrink=True)
 ENGINES["prefixc"] = dict(drv="prefix", starts=("psetup",), trivial=r"$^", branches=["batch"], noshrink=True)
 ENGINES["dispatch4c"] = dict(drv="dispatch4", starts=(), trivial=r"=> U ; drop ; inv -$", branches=[])
@@ -122,7 +122,7 @@ PROPS = {
         assumptions=["the response handed to server_id carries at most one Server-ID option (true of every chain of built-in plugins)", "strings.ToLower of the DUID type is modelled for ASCII"],
     ),
     "C17": dict(
-        engines=[("plug", 4000, 60000)],
+        engines=[("plug", 4000, 60000), ("sys", 1500, 30000)],
         theorems=["C17_builtin4", "C17_builtin6", "C17_netmask4", "C17_router4", "C17_searchdomains4", "C17_searchdomains6", "C17_staticroute4", "C17_dns4", "C17_dns6", "C17_mtu4",
                   "C17_nbp4", "C17_nbp6", "C17_leasetime4", "C17_ipv6only4", "C17_autoconfigure4", "C17_sleep4", "C17_sleep6", "C17_inrange_mtu", "C17_inrange_seconds", "C17_D17_prefix_refuted",
                   "C11_builtin_preserve_mt", "C12_builtin_preserve_mt", "C11_builtin_preserve_echo_opts", "C12_builtin_preserve_cid"],
@@ -132,7 +132,7 @@ PROPS = {
                      "DHCPv6 plugins that append (nbp) are judged on responses that do not already carry their option and on request lists without repeated codes (C17.dom6)"],
     ),
     "C19": dict(
-        engines=[("plug", 4000, 60000), ("chain", 1500, 30000)],
+        engines=[("plug", 4000, 60000), ("chain", 1500, 30000), ("sys", 1500, 30000)],
         theorems=["C19_setup_wireOK", "C19_setup_wireOK4", "C19_staticroute_rejects_non_ipv4", "C19_routes_roundtrip", "C19_labels_roundtrip", "C19_ips_roundtrip", "C19_bootparams_roundtrip",
                   "C19_oversize6_refuted", "C13_nil_stop_builtin", "C13_nil_stop_builtin6"],
         modules=["CoreDhcp.Props.C19", "CoreDhcp.Props.Builtin"],
@@ -150,7 +150,7 @@ PROPS = {
                      "plugin names reach the loader lower-cased by viper"],
     ),
     "C01": dict(
-        engines=[("chain", 2500, 60000), ("dispatch4", 3000, 60000), ("dispatch6", 3000, 60000), ("prefix", 1500, 30000), ("filec", 40, 250)],
+        engines=[("chain", 2500, 60000), ("dispatch4", 3000, 60000), ("dispatch6", 3000, 60000), ("prefix", 1500, 30000), ("filec", 40, 250), ("sys", 1500, 30000)],
         theorems=["C01_dispatch4", "C01_dispatch6", "C01_range_never_panics", "C01_alloc6_never_bug", "C01_alloc4_never_panics", "C01_chain_bounded"],
         modules=["CoreDhcp.Props.C01"],
         facts=["F1", "F2", "F5", "F10"],
